@@ -510,6 +510,9 @@ func (db *DB) loadIndexFromDataFiles(fileIds []uint32, nonMergeFileId uint32) er
 	// 属于批处理提交的相关暂存数据
 	transactionRecords := make(map[uint64][]*datafile.TransactionRecords)
 
+	// 活跃文件末尾是否存在不完整的写入
+	var tornActiveFile bool
+
 	// 从小到大遍历数据文件 id 顺序更新索引, 保证最终索引记录最新数据信息
 	for _, fileId := range fileIds {
 		// 已通过 hint 文件加载, 无需重复加载
@@ -528,6 +531,13 @@ func (db *DB) loadIndexFromDataFiles(fileIds []uint32, nonMergeFileId uint32) er
 			logRecord, pos, err := reader.NextLogRecord()
 			if err != nil {
 				if err == io.EOF {
+					break
+				}
+				// 崩溃或断电遗留的不完整末尾写入, 其之前的记录均有效, 视为文件末尾
+				if err == io.ErrUnexpectedEOF {
+					if fileId == db.activeFile.ID {
+						tornActiveFile = true
+					}
 					break
 				}
 				return err
@@ -556,6 +566,11 @@ func (db *DB) loadIndexFromDataFiles(fileIds []uint32, nonMergeFileId uint32) er
 				}
 			}
 		}
+	}
+
+	// 不能在不完整的写入之后继续追加, 否则其后的数据在下次加载时不可达, 改用新的活跃文件
+	if tornActiveFile {
+		return db.sync()
 	}
 
 	return nil
